@@ -254,6 +254,11 @@ def run(tier, seed):
         c13_remote = None
     if c13_remote is not None:
         n_remote = c13_remote.run_remote(ev, vd, thorough, seed)
+    try:
+        from props import c13_srv
+        c13_srv.run_srv(ev)
+    except ImportError:
+        pass
     ev.cov["traces_validated_against_impl"] = n_wire + n_remote
     ev.cov["evaluations"] = n_wire + n_remote
     ev.cov["distinct_nontrivial"] = sum(1 for t in traces if len([x for x in t["reads"] if x > 0]) >= 2)
